@@ -20,6 +20,9 @@ def C01(ctx):
     ctx.mc("MC_DeweyTok", "MC_DeweyTok.%s.cfg" % t)
     ctx.mc("MC_DeweyCmp", "MC_DeweyCmp.%s.cfg" % t)
     ctx.emit_replay("MC_DeweyPairs", "MC_DeweyPairs.%s.cfg" % t, "pairs")
+    if not ctx.quick:
+        # all ordered pairs of versions of <= 3 tokens over a 14-token alphabet (about 8 million pairs)
+        ctx.emit_replay("MC_DeweyPairs", "MC_DeweyPairs.deep.cfg", "pairs-deep", timeout=3000)
     ctx.exhaustive = True
     ctx.record_validate("vercmp", q(ctx, 20000, 300000), "Tr_Dewey", "Tr_Dewey.cfg")
 
